@@ -64,7 +64,7 @@ def run(tier, replay=None):
             return 1
         C.log("replay: the current code's outcome is a step of the specification")
         return 0
-    out = C.Outcome(PID, tier)
+    out = C.Outcome(PID, tier, level="exploration")
     out.assumptions = [
         "TLC/SANY and the JSON bridge are trusted; the harness is compiled with debug-assertions and overflow-checks on (opt-level 2), so an arithmetic overflow or a failed debug assertion is a panic and therefore a rejected event",
         "out-of-bounds reads of unchecked indexing are observed only through the debug assertions that guard them (trie, word id table, connection matrix) - no sanitizer run",
